@@ -15,7 +15,7 @@ func scenC02(k *K) {
 	typ := types[k.C.Intn(3)]
 	n := k.C.Range(2, 4)
 	conc := []uint{1, 2, 32}[k.C.Intn(3)]
-	c := k.NewCluster(ClusterCfg{N: n, Type: typ, PeerOpts: []PeerOpt{WithKnobs(Knobs{Concurrency: conc})}})
+	c := k.NewCluster(ClusterCfg{N: n, Type: typ, PeerOpts: append(transportOpt(k), WithKnobs(Knobs{Concurrency: conc}))})
 	k.F = swarmFaults(k, true)
 	if k.C.Chance(1, 2) {
 		k.F.Cut, k.F.Heal = 2, 1
